@@ -23,6 +23,7 @@ import (
 	"github.com/dadrus/heimdall/internal/handler/envoyextauth/grpcv3"
 	"github.com/dadrus/heimdall/internal/handler/proxy"
 	"github.com/dadrus/heimdall/internal/heimdall"
+	"github.com/dadrus/heimdall/internal/rules/endpoint"
 	"github.com/dadrus/heimdall/internal/rules/rule"
 	"github.com/dadrus/heimdall/internal/x/errorchain"
 )
@@ -191,4 +192,35 @@ func c12RunWireProbe(_ map[string]any) (any, error) {
 	}
 
 	return map[string]any{"fields": fields, "answers": answers}, nil
+}
+
+// c12ProbeStrategy is an authentication strategy of an endpoint which fails with a given error.
+type c12ProbeStrategy struct{ err error }
+
+func (s c12ProbeStrategy) Apply(context.Context, *http.Request) error { return s.err }
+func (s c12ProbeStrategy) Hash() []byte                               { return []byte("probe") }
+
+// op "epprobe" (round 5): what `Endpoint.CreateRequest` and `Endpoint.SendRequest` return when the authentication
+// strategy of the endpoint fails — one probe per error kind (an errorchain headed by the sentinel) and one for a
+// foreign error: which errors are put in front of the strategy's error, and does it stay in the chain.
+func c12RunEndpointProbe(_ map[string]any) (any, error) {
+	causes := map[string]error{"foreign": errors.New("probe: foreign failure of the strategy")}
+	for k, s := range errmapKinds {
+		causes[k] = errorchain.NewWithMessage(s, "probe: failure of the strategy")
+	}
+
+	out := map[string]any{}
+
+	for name, cause := range causes {
+		ep := endpoint.Endpoint{
+			URL: "http://127.0.0.1:9/probe", Method: http.MethodGet, AuthStrategy: c12ProbeStrategy{err: cause},
+		}
+
+		_, cerr := ep.CreateRequest(context.Background(), nil, nil)
+		_, serr := ep.SendRequest(context.Background(), nil, nil)
+
+		out[name] = map[string]any{"cause": c12TermOf(cause, 0), "create": c12TermOf(cerr, 0), "send": c12TermOf(serr, 0)}
+	}
+
+	return out, nil
 }
